@@ -1440,7 +1440,7 @@ class Pregex():
                 return pattern
             temp = _re.sub(pattern=left_par + r"(?:[^\(\)]|\\(?:\(|\)))+" + right_par,
                 repl=repl, string=pattern)
-            return temp if temp == repl else remove_groups(temp, repl)
+            return temp if temp in (repl, pattern) else remove_groups(temp, repl)
 
         def __is_group(pattern: str) -> bool:
             '''
